@@ -234,33 +234,29 @@ Section Refine.
       f_equal.
   Qed.
 
-  Hypothesis Hwf : wf_view v.
-
   Lemma rendered_block_ok dv row :
-    div3_ok dv -> length row <= v_ncols v ->
+    div3_ok dv ->
     rendered_block dv cwsZ (map (al_of v) (seq 0 (v_ncols v))) (v_ncols v) (map (mcell_of W) row)
     = Ok (map flatten (row_block W v dv row)).
   Proof.
-    intros Hdv Hlen. unfold rendered_block, row_block.
-    rewrite row_to_lines_ok by exact Hlen. unfold row_height. rewrite map_map.
+    intros Hdv. unfold rendered_block, row_block.
+    rewrite row_to_lines_ok. unfold row_height. rewrite map_map.
     apply mapM_map. intros k _. apply rendered_line_ok. exact Hdv.
   Qed.
 
   Hypothesis Hdiv : div3_ok (hdr_div d) /\ div3_ok (body_div d).
 
   Lemma body_writes_ok rows :
-    Forall (row_fits (v_ncols v)) rows ->
     exists ws,
       body_writes d cwsZ (map (al_of v) (seq 0 (v_ncols v))) (v_ncols v) (map (mrow_of W) rows) = Ok ws
       /\ concat ws = concat (map flatten (flat_map (row_part W d v) rows)).
   Proof.
-    induction rows as [|r rows IH]; intros Hfit.
+    induction rows as [|r rows IH].
     - exists []. split; reflexivity.
-    - inversion Hfit as [|? ? Hf1 Hfit']; subst.
-      destruct (IH Hfit') as (ws & E & C).
+    - destruct IH as (ws & E & C).
       destruct r as [cs|]; cbn [map mrow_of option_map body_writes flat_map row_part].
       + change (body_dividers d) with (body_div d).
-        rewrite rendered_block_ok by (try apply Hdiv; exact Hf1).
+        rewrite rendered_block_ok by apply Hdiv.
         cbn [bind]. rewrite E. cbn [bind]. eexists. split; [reflexivity|].
         rewrite concat_app, map_app, concat_app, C. reflexivity.
       + unfold line_separator. rewrite template_line_ok. cbn [bind]. rewrite E. cbn [bind].
